@@ -4,6 +4,7 @@ import PMV.Generated.Stmt
 import PMV.Proofs.ParenGram
 import PMV.Proofs.Spacing
 import PMV.Proofs.Numbers
+import PMV.Proofs.LayoutTable
 /-
   C02 — Printed source re-parses to exactly the same syntax tree.
   Proved here, for every well-formed expression tree of the modelled AST (unbounded depth):
@@ -53,6 +54,36 @@ theorem dispatch_complete :
         "ImportFrom", "Global", "Nonlocal", "Expr", "Pass", "Break", "Continue"].all
         fun c => !Generated.stmtTable.compound.contains c) = true := by decide +kernel
 
+/-- G02.5: the compound-statement list regenerated from `_suite` agrees with the grammar's compound statements, and
+    `match_case` is in it (a `match` body is always a block). -/
+theorem stmt_table_ok : Spec.Layout.TableOK Generated.stmtTable := Spec.Layout.stmtTable_ok
+
+/-- T02.4 (layout): for every module whose clause headers and simple statements print as non-empty runs of real tokens
+    (`okL`, decidable), the printer's state machine — `newline`, `indent ±1`, `end_statement` with their `rstrip` and
+    empty-code special cases, the `elif` token surgery, the missing `newline` before a `while … else` — leaves exactly the
+    layout `emitModule` specifies: one line per clause header; a suite on the header line (simple statements joined by
+    single `;`) or as a block exactly one level deeper when it holds a compound statement; consecutive statements
+    separated by a line break to the depth of their block when either is compound or the block is the module, by `;`
+    otherwise; no empty line, no doubled or trailing separator. -/
+theorem layout_as_specified (m : Module) (hok : Spec.Layout.okL Generated.precTable Generated.stmtTable m.body = true) :
+    Spec.Layout.machineLayout (moduleToks Generated.precTable Generated.stmtTable m)
+      = Spec.Layout.emitModule Generated.precTable Generated.stmtTable m :=
+  Spec.Layout.module_layout _ _ stmt_table_ok m hok
+
+/-- T02.5 (characters): when moreover no token text ends in a character that `newline` strips or is empty (`textOK`),
+    the printed text is the concatenation of the characters of a list of layout tokens (a token with the space the spacing
+    rule puts before it; a line break followed by `depth` tabs; a `;`) which, spacing forgotten, is the specified layout. -/
+theorem printed_text_is_layout (m : Module) (hok : Spec.Layout.okL Generated.precTable Generated.stmtTable m.body = true)
+    (hts : ∀ tok ∈ moduleToks Generated.precTable Generated.stmtTable m, Spec.Layout.textOK tok = true) :
+    ∃ L : List Spec.Layout.LTok,
+      Token.render Generated.spacing (moduleToks Generated.precTable Generated.stmtTable m) = String.ofList (Spec.Layout.revCode L.reverse).reverse ∧
+      L.map Spec.Layout.LTok.erase = Spec.Layout.emitModule Generated.precTable Generated.stmtTable m := by
+  refine ⟨((Spec.Layout.lrun Generated.spacing (moduleToks Generated.precTable Generated.stmtTable m)).acc.dropWhile Spec.Layout.LTok.isLay).reverse, ?_, ?_⟩
+  · rw [List.reverse_reverse]
+    exact Spec.Layout.render_eq Generated.spacing _ hts
+  · rw [List.map_reverse]
+    exact Spec.Layout.printed_layout Generated.spacing _ _ stmt_table_ok m hok
+
 /-- The full property, relative to a parser `parse` standing for `ast.parse` (no Lean model of the
     CPython parser exists here; what is proved above is the part of this statement that concerns
     parenthesisation, token separation and integer spelling; statement-level slots, suite layout and
@@ -69,5 +100,17 @@ example : Token.render Generated.spacing (exprToks Generated.precTable
             (.unaryOp .uSub (.ifExp (.name "c" .load) (.constant (.int 1)) (.constant (.int 2))))))
     = "(a-b)**-(1 if c else 2)" := by decide +kernel
 example : Spec.Lex.glues .numberLiteral (Spec.Lex.nextOf (.kw "for")) = true := by decide
+
+-- Non-vacuity of T02.4 / T02.5: nested compound statements, an `elif` chain, `while … else`, inline and block suites.
+def layoutWitness : Module := ⟨[
+  .expr (.name "a" .load),
+  .if_ (.name "b" .load) [.expr (.name "c" .load), .pass]
+    [.if_ (.name "d" .load) [.while_ (.name "e" .load) [.break_] [.continue_, .pass]] [.expr (.name "f" .load)]],
+  .expr (.name "g" .load), .expr (.name "h" .load)]⟩
+
+example : Spec.Layout.okL Generated.precTable Generated.stmtTable layoutWitness.body = true := by decide +kernel
+example : (moduleToks Generated.precTable Generated.stmtTable layoutWitness).all Spec.Layout.textOK = true := by decide +kernel
+example : Token.render Generated.spacing (moduleToks Generated.precTable Generated.stmtTable layoutWitness)
+    = "a\nif b:c;pass\nelif d:\n\twhile e:break\n\telse:continue;pass\nelse:f\ng\nh" := by decide +kernel
 
 end PMV.C02
